@@ -86,9 +86,38 @@ def observe (c : FullNode.Cfg) (nd : FullNode.Node) (ws : List SW) : String :=
   let disk := match n.store.state with | some s => Drv.Prod.showState s | none => "none"
   s!"height={h} cursor={nd.cursor} disk={disk} mem={Drv.Prod.showState n.lastState} alive={if n.alive then 1 else 0} w={Drv.Prod.showWs ws} blocks={showBlocks c n.store} head=[{showHead n.store h}]"
 
+/-- the proposer's chain holds two non-empty blocks with the same transaction list: the state at quiescence then depends
+on the relative order in which the sync loop serves its two channels (data is marked seen when its block is APPLIED,
+/repo c3c43a6; C02's order-independence needs `DistinctCommitments`), and only schedule-independent facts are printed -/
+def dupChain (s : St) : Bool :=
+  let ih := s.cfg.sync.initialHeight
+  let txs := (List.range (s.prod.store.height + 1 - ih)).filterMap fun i =>
+    match s.prod.store.getBlock (ih + i) with
+    | some b => if b.data.txs.isEmpty then none else some b.data.txs
+    | none => none
+  let rec go : List (List Bytes) → Bool
+    | [] => false
+    | x :: rest => rest.contains x || go rest
+  go txs
+
+/-- alive, DA cursor, "every stored block up to the chain height is the proposer's", "DA-included ≤ chain height" -/
+def observeDup (s : St) : String :=
+  let n := s.h.nd.full
+  let ih := s.cfg.sync.initialHeight
+  let ok := (List.range (n.store.height + 1 - ih)).all fun i =>
+    let k := ih + i
+    match n.store.getBlock k, s.prod.store.getBlock k with
+    | some b, some pb => k ≤ s.prod.store.height && b.sh.hdr.hash == pb.sh.hdr.hash
+    | _, _ => false
+  s!"dup alive={if n.alive then 1 else 0} cursor={s.h.nd.cursor} blocks={if ok then "ok" else "bad"} incok={if s.h.daInc ≤ n.store.height then 1 else 0}"
+
+/-- the observation of the node after an operation -/
+def obs (s : St) : String :=
+  if dupChain s then observeDup s else observe s.cfg s.h.nd s.h.ws ++ " " ++ showInc s.cfg s.h
+
 /-- observation after a (re)start -/
 def startObs (s : St) : String :=
-  if s.h.ok then "start " ++ observe s.cfg s.h.nd s.h.ws ++ " " ++ showInc s.cfg s.h else "start err"
+  if s.h.ok then "start " ++ obs s else "start err"
 
 /-- the event the P2P store loops hand over for a part of the proposer's chain -/
 def p2pEvent (s : St) (tok : String) : Option Retrieve.Event :=
@@ -181,14 +210,14 @@ def step (s : St) (line : String) : St × String :=
   | "run" =>
     if !s.h.ok then (s, "dead") else
     let s1 := hop s .run
-    (s1, "run " ++ observe s1.cfg s1.h.nd s1.h.ws ++ " " ++ showInc s1.cfg s1.h)
+    (s1, "run " ++ obs s1)
   | "p2p" =>
     if !s.h.ok then (s, "dead") else
     let toks := if o.str "items" = "" || o.str "items" = "-" then [] else (o.str "items").splitOn ","
     let evs := toks.filterMap (p2pEvent s)
     let shown := toks.map fun t => if (p2pEvent s t).isSome then t else s!"{t}:none"
     let s1 := hop s (.p2p evs)
-    (s1, s!"p2p {if shown.isEmpty then "-" else String.intercalate "," shown} " ++ observe s1.cfg s1.h.nd s1.h.ws ++ " " ++ showInc s1.cfg s1.h)
+    (s1, s!"p2p {if shown.isEmpty then "-" else String.intercalate "," shown} " ++ obs s1)
   | "p2pstore" =>
     -- items arrive in the P2P stores (go-header); unless poll=0 the REAL store loops poll once each and everything
     -- runs until quiescent
@@ -203,7 +232,7 @@ def step (s : St) (line : String) : St × String :=
       (s1, s!"p2padd {sh} hs={s1.cfg.sync.initialHeight - 1 + s1.h.hStore.length} ds={s1.cfg.sync.initialHeight - 1 + s1.h.dStore.length}")
     else if !s.h.ok then (s, "dead") else
       let s1 := hop s (.p2pstore hs ds (o.str "order" ≠ "dh"))
-      (s1, s!"p2pstore {sh} hs={s1.cfg.sync.initialHeight - 1 + s1.h.hStore.length} ds={s1.cfg.sync.initialHeight - 1 + s1.h.dStore.length} " ++ observe s1.cfg s1.h.nd s1.h.ws ++ " " ++ showInc s1.cfg s1.h)
+      (s1, s!"p2pstore {sh} hs={s1.cfg.sync.initialHeight - 1 + s1.h.hStore.length} ds={s1.cfg.sync.initialHeight - 1 + s1.h.dStore.length} " ++ obs s1)
   | "restart" =>
     if !s.h.ok then (s, "dead") else
     let s1 := hop s .restart
@@ -220,6 +249,7 @@ def step (s : St) (line : String) : St × String :=
   | "show" =>
     if !s.h.ok then (s, "dead") else
     let n := s.h.nd.full
+    if dupChain s then (s, s!"show dup cursor={s.h.nd.cursor}") else
     (s, s!"show height={n.store.height} cursor={s.h.nd.cursor} hc={natList (Drv.Syn.sortNats (n.hdrCache.map (·.1)))} dc={natList (Drv.Syn.sortNats (n.datCache.map (·.1)))} seenH={Drv.Syn.shortHashes n.seenH} seenD={Drv.Syn.shortHashes n.seenD} hm={Drv.Sub.showMarks s.h.hMarks} dm={Drv.Sub.showMarks s.h.dMarks}")
   | _ => (s, "bad-op")
 
